@@ -26,25 +26,31 @@ AnyN   == 0..1000000        \* cfg: Sizes <- AnyN, Warm <- AnyN (recorded runs r
 VARIABLES tid,     \* which trace
           l,       \* position in the trace
           vhist,   \* value ids parallel to hist
-          pend     \* value id of the transition awaiting its callback (-1: none)
+          pend,    \* value id of the transition awaiting its callback (-1: none)
+          tun      \* warm-up tuning bookkeeping (growth beyond C14): <<interval, inner steps completed in this window,
+                   \*   tune already seen for the pending step>>; interval = 0 outside a warm-up window
 
-tvars == <<vars, tid, l, vhist, pend>>
+tvars == <<vars, tid, l, vhist, pend, tun>>
 
 Ev       == Traces[tid].events
 IsEvent(e) == l <= Len(Ev) /\ Ev[l].e = e /\ l' = l + 1 /\ UNCHANGED tid
 
 TraceInit == /\ Init /\ iface = "stateful"
-             /\ tid \in 1..Len(Traces) /\ l = 1 /\ vhist = <<>> /\ pend = -1
+             /\ tid \in 1..Len(Traces) /\ l = 1 /\ vhist = <<>> /\ pend = -1 /\ tun = <<0, 0, FALSE>>
 
 TBegin == /\ IsEvent("begin")
           /\ pend = -1
           /\ IF Ev[l].op = "sample" THEN BeginSample(Ev[l].n) ELSE BeginWarmup(Ev[l].n)
+          /\ tun' = <<IF Ev[l].op = "warmup" THEN Ev[l].interval ELSE 0, 0, FALSE>>
           /\ UNCHANGED <<vhist, pend>>
 
 \* transition inside a window: remember its value id; outside: not a specification step
 TStep == /\ IsEvent("step")
          /\ IF todo > 0 THEN pend = -1 /\ pend' = Ev[l].pid ELSE UNCHANGED pend
-         /\ UNCHANGED <<vars, vhist>>
+         /\ UNCHANGED <<vars, vhist, tun>>
+
+\* tuning is due after inner step number tun[2]+1 of a warm-up window iff that number is a multiple of the interval
+TuneDue == tun[1] > 0 /\ (tun[2] + 1) % tun[1] = 0
 
 \* Append . Callback : the specification's Step, bound to the logged index and value id
 TCb == /\ IsEvent("cb")
@@ -54,25 +60,40 @@ TCb == /\ IsEvent("cb")
        /\ Ev[l].pid = pend                        \* the state handed to the callback is the one the transition produced
        /\ vhist' = Append(vhist, pend)
        /\ pend' = -1
+       \* warm-up: if tuning was due after this transition it must have happened (Transition . Tune . Append . Callback)
+       /\ (TuneDue => tun[3])
+       /\ tun' = <<tun[1], tun[2] + 1, FALSE>>
+
+\* tune(skip_len, update_count) inside a warm-up window: only where due, once, with the documented arguments
+\* (skip_len = interval, update_count = index of the step \div interval); elsewhere (direct calls, e.g. HybridGibbs
+\* tuning its block samplers) it is not an action of this specification
+TTune == /\ IsEvent("tune")
+         /\ IF Ev[l].win = 1 /\ cur[1] = "warmup"
+            THEN /\ pend >= 0 /\ TuneDue /\ ~tun[3]
+                 /\ Ev[l].skip = tun[1] /\ Ev[l].count = tun[2] \div tun[1]
+                 /\ tun' = <<tun[1], tun[2], TRUE>>
+            ELSE UNCHANGED tun
+         /\ UNCHANGED <<vars, vhist, pend>>
 
 TEnd == /\ IsEvent("end")
         /\ Idle /\ pend = -1
         /\ Ev[l].len = Len(hist)                  \* recorded length = everything requested
+        /\ tun' = <<0, 0, FALSE>>
         /\ UNCHANGED <<vars, vhist, pend>>
 
 \* get_samples(): the recorded chain is exactly what was appended - no entry altered, none lost, none added
 TGet == /\ IsEvent("get")
         /\ Ev[l].ids = vhist
-        /\ UNCHANGED <<vars, vhist, pend>>
+        /\ UNCHANGED <<vars, vhist, pend, tun>>
 
 TReinit == /\ IsEvent("reinit")
            /\ Reinit
-           /\ vhist' = <<>> /\ UNCHANGED pend
+           /\ vhist' = <<>> /\ UNCHANGED <<pend, tun>>
 
-TSetState == /\ IsEvent("setstate") /\ UNCHANGED <<vars, vhist, pend>>
-TSetHist  == /\ IsEvent("sethist") /\ Ev[l].len = Len(hist) /\ UNCHANGED <<vars, vhist, pend>>
+TSetState == /\ IsEvent("setstate") /\ UNCHANGED <<vars, vhist, pend, tun>>
+TSetHist  == /\ IsEvent("sethist") /\ Ev[l].len = Len(hist) /\ UNCHANGED <<vars, vhist, pend, tun>>
 
-TraceNext == TBegin \/ TStep \/ TCb \/ TEnd \/ TGet \/ TReinit \/ TSetState \/ TSetHist
+TraceNext == TBegin \/ TStep \/ TCb \/ TTune \/ TEnd \/ TGet \/ TReinit \/ TSetState \/ TSetHist
 
 TraceSpec == TraceInit /\ [][TraceNext]_tvars
 
